@@ -208,6 +208,19 @@ def drive_mo(before, take):
                 unwind=6, object_bits=11, kind='bounded', timeout=600, bounded=what, under_contract=[],
                 replay=dict(src='c18_mo_drive.cpp', mode='C18MO', flags=['-I', '/verif/drivers', '-g', '-fsanitize=address,undefined']))
 UNITS += [drive_mo(b, t) for t in (1, 0) for b in (1, 0)]
+# "whether the awaited future was already resolved at registration": every adapter registers through awaiter::subscribe_check_ready and relies on a REFUSED
+# registration leaving the awaiter node clean (link cleared) - a re-armed helper (call_fn_future_awaiter / future_conv used for a second operation) that
+# still carries the ready marker in its link "succeeds" in registering on an already resolved future and its completion never runs (seeded change C18-3).
+# That clause is in the contract of awaiter::subscribe_check_ready (C02: refused <=> node untouched, link NULL); re-run here.
+import importlib.util as _ilu18, os as _os18, copy as _copy18
+def _c02_18(names):
+    s = _ilu18.spec_from_file_location('c18_c02', _os18.path.join(_os18.path.dirname(_os18.path.dirname(_os18.path.abspath(__file__))), 'C02', 'units.py')); m = _ilu18.module_from_spec(s); s.loader.exec_module(m)
+    out = []
+    for x in m.UNITS:
+        if x['name'] in names:
+            v = _copy18.deepcopy(x); v['name'] = 'C02_' + x['name']; out.append(v)
+    return out
+UNITS += _c02_18(['subscribe_check_ready', 'resume'])
 META = dict(
     level='proof',
     level_text=('The non-coroutine adapters are verified against contracts taken from the property statement: future_with_cb (constructor; its resume lambda, heap and storage variant), make_promise (both overloads), '
